@@ -3,12 +3,12 @@ package main
 // Translation of contract expressions (cexpr.go) into SMT terms in a given state.
 
 import (
-	"sort"
-	"hash/fnv"
 	"fmt"
 	"go/constant"
 	"go/token"
 	"go/types"
+	"hash/fnv"
+	"sort"
 	"strconv"
 	"strings"
 )
@@ -429,6 +429,23 @@ func (c *cenv) term(ex CExpr) (cval, error) {
 		if x.Forall {
 			q = "forall"
 		}
+		if len(x.Triggers) > 0 {
+			nB := len(e.asserts)
+			pats := ""
+			for _, g := range x.Triggers {
+				var ts []string
+				for _, tx := range g {
+					tv, err := ch.term(tx)
+					if err != nil {
+						return cval{}, fmt.Errorf("trigger %s: %v", tx, err)
+					}
+					ts = append(ts, tv.s)
+				}
+				pats += " :pattern (" + strings.Join(ts, " ") + ")"
+			}
+			e.asserts = e.asserts[:nB:nB] // side facts of pattern terms are not wanted
+			return cval{fmt.Sprintf("(%s (%s) (! %s%s))", q, strings.Join(binds, " "), body, pats), "Bool", nil}, nil
+		}
 		return cval{fmt.Sprintf("(%s (%s) %s)", q, strings.Join(binds, " "), body), "Bool", nil}, nil
 	case *CCall:
 		return c.call(x)
@@ -654,12 +671,16 @@ func (c *cenv) call(x *CCall) (cval, error) {
 		}
 		switch a[0].sort {
 		case "Slice":
+			// lengths are not negative (a typing fact: it goes with the clause, see entryGoal)
+			e.assume(e.ige0("(len " + a[0].s + ")"))
 			return cval{"(len " + a[0].s + ")", "ISort", types.Typ[types.Int]}, nil
 		case "Str":
 			return cval{e.slenI(a[0].s), "ISort", types.Typ[types.Int]}, nil
 		case "Ref":
 			e.harr("MapLen", "(Array Ref "+e.isort()+")")
-			return cval{fmt.Sprintf("(ite (= %s 0) %s (select %s %s))", a[0].s, e.ilit(0), e.hnameIn("MapLen", c.st), a[0].s), "ISort", types.Typ[types.Int]}, nil
+			t := fmt.Sprintf("(ite (= %s 0) %s (select %s %s))", a[0].s, e.ilit(0), e.hnameIn("MapLen", c.st), a[0].s)
+			e.assume(e.ige0(t))
+			return cval{t, "ISort", types.Typ[types.Int]}, nil
 		}
 		return cval{}, fmt.Errorf("len of %s", a[0].sort)
 	case "cap":
